@@ -649,9 +649,12 @@ Definition resolve_recv_alias (g : cfg) (c : conn) (p : pkt) : res (conn * pkt *
     | None => Ok (c, p, false, [])
     end.
 
-(* the inbound bookkeeping of a QoS>0 PUBLISH: flow-control set and QoS2 handled set *)
+(* the inbound bookkeeping of a QoS>0 PUBLISH: the flow-control set (before the alias checks) ... *)
 Definition note_inbound (c : conn) (p : pkt) : conn :=
-  let c := if negb (k_qos p =? 0) then set_publish_recv c (ins (k_pid p) (c_publish_recv c)) else c in
+  if negb (k_qos p =? 0) then set_publish_recv c (ins (k_pid p) (c_publish_recv c)) else c.
+
+(* ... and the QoS2 handled set, only once the packet is accepted *)
+Definition note_handled (c : conn) (p : pkt) : conn :=
   if k_qos p =? 2 then set_qos2 c (ins (k_pid p) (c_qos2 c)) else c.
 
 Definition recv_publish_v5 (g : cfg) (c : conn) (pr : presult) : R :=
@@ -668,6 +671,7 @@ Definition recv_publish_v5 (g : cfg) (c : conn) (pr : presult) : R :=
     let pubrec_send := (k_qos p =? 2) && connected && (c_auto_pub c || already) in
     bindr (resolve_recv_alias g (note_inbound c p) p) (fun '(c, q, stop, e0) =>
     if stop then Ok (c, e0) else
+    let c := note_handled c p in
     bindr (if puback_send then send_puback_like c (ack_pkt g T_PUBACK V50 id None) else Ok (c, [])) (fun '(c, e1) =>
     bindr (if pubrec_send then send_puback_like c (ack_pkt g T_PUBREC V50 id None) else Ok (c, [])) (fun '(c, e2) =>
     let '(c, e3) := refresh_pingreq_recv c in
